@@ -97,6 +97,30 @@ def meanStat (o : Opts K) (B S : Nat) (x : T3 K) : Nat → K :=
 def varStat (o : Opts K) (B S : Nat) (x : T3 K) : Nat → K :=
   cat ((blocks o).map fun blk => (blk.mul, batchStat o B S blk (centredBatch o B S x blk)))
 
+/-- the centred field of a block in instance mode (per-sample mean over the middle dimensions) -/
+def centredInst (o : Opts K) (S : Nat) (x : T3 K) (blk : Block) : T4 K :=
+  centred o blk (field x blk) (instMean S (field x blk))
+
+/-- instance mode, sample `b`: per even-scalar feature the mean over the middle dimensions -/
+def instMeanStat (o : Opts K) (S : Nat) (x : T3 K) (b : Nat) : Nat → K :=
+  cat (((blocks o).filter (·.isScalar)).map fun blk => (blk.mul, instMean S (field x blk) b))
+
+/-- instance mode, sample `b`: per feature the sample-reduced squared norm of the centred field -/
+def instVarStat (o : Opts K) (S : Nat) (x : T3 K) (b : Nat) : Nat → K :=
+  cat ((blocks o).map fun blk => (blk.mul, sampleStat o S blk (centredInst o S x blk) b))
+
+theorem meanOf_inst (o : Opts K) (st : State K) (B S : Nat) (blk : Block) (f : T4 K) (hi : o.inst = true) :
+    meanOf o st B S blk f = instMean S f := by
+  simp [meanOf, hi]
+
+theorem normOf_inst (o : Opts K) (st : State K) (B S : Nat) (blk : Block) (c : T4 K) (hi : o.inst = true) :
+    normOf o st B S blk c = sampleStat o S blk c := by
+  simp [normOf, hi]
+
+theorem centredOf_inst (o : Opts K) (st : State K) (B S : Nat) (x : T3 K) (blk : Block) (hi : o.inst = true) :
+    centredOf o st B S x blk = centredInst o S x blk := by
+  simp [centredOf, centredInst, meanOf_inst o st B S blk _ hi]
+
 theorem meanOf_train (o : Opts K) (st : State K) (B S : Nat) (blk : Block) (f : T4 K)
     (ht : st.training = true) (hi : o.inst = false) :
     meanOf o st B S blk f = fun _ u => batchMean B S f u := by
@@ -172,7 +196,7 @@ def trainedBatches (o : Opts K) : Bool → List (Op K) → List (Nat × Nat × T
   | _, .train :: ops => trainedBatches o true ops
   | _, .eval :: ops => trainedBatches o false ops
   | tr, .forward B S dim x :: ops =>
-    if tr && accepted o B dim && S != 0 then (B, S, x) :: trainedBatches o tr ops
+    if tr && (accepted o B dim && S != 0) then (B, S, x) :: trainedBatches o tr ops
     else trainedBatches o tr ops
 
 /-- the training flag after a history -/
